@@ -17,6 +17,8 @@ structure S where
   lastFail : List (String × String) := []       -- thread ↦ class of its last failed read
   winnerTid : String := ""
   winnerExternal : Bool := false
+  casSeen : Bool := false            -- observation: some goroutine has executed the `closed` CAS (the first one wins)
+  winnerRetObs : Bool := false
   -- observations
   stepNo : Nat := 0
   activeB : Nat := 0
@@ -54,11 +56,11 @@ def onLabel (s : S) (tid label case : String) : S :=
   | "readLoop.select" => if case == "0" then s.ev .loopExit label else s
   | "Close.cas-closed" =>
     let s := { s with closeSeen := true }
-    if s.st.winner.isNone then
+    if !s.casSeen then
       let (cls, ext) := match lookup s.pendingErr tid with
         | some c => (c, true)
         | none => ((lookup s.lastFail tid).getD "nil", false)
-      let s := { s with winnerTid := tid, winnerExternal := ext, winnerErrObs := cls }
+      let s := { s with winnerTid := tid, winnerExternal := ext, winnerErrObs := cls, casSeen := true }
       s.ev (.closeWin (errCode cls)) label
     else s.ev (.closeRet false) label
   | "Close.tr-close" => ({ s with trCloseTid := tid }).ev .closeTr label
@@ -99,7 +101,7 @@ def onEvent (s : S) (tid : String) (ev : String) : S :=
         let s := if ia != "0" then s.bad "IsActive is still true after a Close call returned" else s
         if tid == s.trCloseTid && cd != "1" then s.bad "the channel context is not cancelled after the Close call that took effect returned" else s
       | _ => s
-    if tid == s.winnerTid && s.winnerExternal && !s.st.winnerReturned then s.ev (.closeRet true) ev else s
+    if tid == s.winnerTid && s.winnerExternal && !s.winnerRetObs then ({ s with winnerRetObs := true }).ev (.closeRet true) ev else s
   | "exit" :: _ => { s with loopExited := true }
   | _ => s
 
